@@ -359,8 +359,12 @@ void Runner::op_drain_run(Thread *t, int idx, const Op &op, OpRes &res) {
   if (h) { d.got[1] = h->rd_off[1]; d.got[2] = h->rd_off[2]; }
   uint64_t base[3] = { 0, d.got[1], d.got[2] };
   // string sinks: start from NULL or from a non-empty heap string owned by the caller
-  char *ostr = nullptr, *estr = nullptr;
-  size_t init_len = (size_t) op.e;
+  // The two `char *` variables live in the runner, so their *addresses* are the same from one drain/run to the next, as with a
+  // program that keeps one output variable.  With v[0] == 1 the string left by the previous drain/run is re-used after an
+  // edit in place (cut back to a prefix of 'x's) instead of starting from a fresh allocation.
+  char *&ostr = str_slot[0], *&estr = str_slot[1];
+  bool reuse = !op.v.empty() && op.v[0] == 1;
+  size_t init_len_s[3] = { 0, (size_t) op.e, (size_t) op.e };
   auto mkstr = [&](size_t n) -> char * {
     if (!n) return nullptr;
     char *p = (char *) simk_malloc(n + 1);
@@ -368,8 +372,19 @@ void Runner::op_drain_run(Thread *t, int idx, const Op &op, OpRes &res) {
     p[n] = 0;
     return p;
   };
-  if (ok == 1) ostr = mkstr(init_len);
-  if (ek == 1) estr = mkstr(init_len);
+  auto prepare = [&](char *&slot, bool wanted, int s) {
+    if (slot && !(reuse && wanted)) { api->free_(slot); slot = nullptr; }
+    if (!wanted) return;
+    if (slot) {
+      size_t L = strlen(slot), n = init_len_s[s] < L ? init_len_s[s] : L;
+      memset(slot, 'x', n);
+      slot[n] = 0;
+      init_len_s[s] = n;
+      probe(P_string_reused_in_place);
+    } else slot = mkstr(init_len_s[s]);
+  };
+  prepare(ostr, ok == 1, 1);
+  prepare(estr, ek == 1, 2);
   ShimRet r;
   StartSpec sp;
   std::vector<const char *> argv;
@@ -416,11 +431,16 @@ void Runner::op_drain_run(Thread *t, int idx, const Op &op, OpRes &res) {
   Proc *c = h ? proc_of(*h) : nullptr;
   if (is_run) for (size_t i = nprocs0; i < k->procs.size(); i++) if (k->procs[i]->start_op == idx) c = k->procs[i];
   auto release_strings = [&]() {
-    if (ostr) api->free_(ostr);
-    if (estr) api->free_(estr);
+    // kept for the next drain/run of the plan if that one wants to continue with them
+    bool keep = (size_t) idx + 1 < plan.ops.size() && (plan.ops[(size_t) idx + 1].kind == OP_DRAIN || plan.ops[(size_t) idx + 1].kind == OP_RUN) &&
+                !plan.ops[(size_t) idx + 1].v.empty() && plan.ops[(size_t) idx + 1].v[0] == 1 && plan.w.binding == 0;
+    if (keep) return;
+    if (ostr) { api->free_(ostr); ostr = nullptr; }
+    if (estr) { api->free_(estr); estr = nullptr; }
   };
   auto check_string = [&](const char *sname, char *str, int s, bool complete) {
     // final string == previous content ++ received bytes, NUL-terminated
+    const size_t init_len = init_len_s[s];
     if (!str && init_len > 0)
       viol("C16", "string-sink-lost-string", sname, fmt("the caller's string (%zu bytes before the call) is NULL afterwards (drain returned %s)", init_len, en(v).c_str()), idx);
     if (!c) return;
